@@ -378,7 +378,16 @@ fn spec_root(e: &ExpressionTree, ev: &dyn Fn(&ExpressionTree) -> Ev) -> (Expect,
                 (sqlgrep::model::Value::Timestamp(x), sqlgrep::model::Value::Timestamp(y)) => (x.timestamp(), x.timestamp_subsec_nanos()).cmp(&(y.timestamp(), y.timestamp_subsec_nanos())),   // by instant (timestamp_nanos_opt is None beyond 1677..2262)
                 (sqlgrep::model::Value::Bool(x), sqlgrep::model::Value::Bool(y)) => x.cmp(y),
                 (sqlgrep::model::Value::Interval(x), sqlgrep::model::Value::Interval(y)) => x.cmp(y),   // by duration
-                (sqlgrep::model::Value::Timestamp(_), sqlgrep::model::Value::String(_)) | (sqlgrep::model::Value::String(_), sqlgrep::model::Value::Timestamp(_)) => return (Unspecified, ""),
+                // a TIMESTAMP with a TEXT that is a timestamp literal (`YYYY-MM-DD hh:mm:ss`, read by chrono directly): compared by
+                // instant, the operands in the order they were WRITTEN (`'text' > ts` is not `ts > 'text'`); other texts: left open
+                (sqlgrep::model::Value::Timestamp(x), sqlgrep::model::Value::String(t)) => match crate::exprs::ts_parse_oracle(t) {
+                    Some(sqlgrep::model::Value::Timestamp(y)) => (x.timestamp(), x.timestamp_subsec_nanos()).cmp(&(y.timestamp(), y.timestamp_subsec_nanos())),
+                    _ => return (Unspecified, ""),
+                },
+                (sqlgrep::model::Value::String(t), sqlgrep::model::Value::Timestamp(y)) => match crate::exprs::ts_parse_oracle(t) {
+                    Some(sqlgrep::model::Value::Timestamp(x)) => (x.timestamp(), x.timestamp_subsec_nanos()).cmp(&(y.timestamp(), y.timestamp_subsec_nanos())),
+                    _ => return (Unspecified, ""),
+                },
                 (a, b) if a.value_type() == b.value_type() => return (Unspecified, ""),
                 _ => return (Error, "D04:cmp-type-mismatch"),
             };
@@ -882,6 +891,7 @@ pub fn run(p: &Params) -> Run {
     select_level(&mut run, &mut rng, n_stmt);
     not_texts(&mut run, &mut rng, n_stmt / 2);
     anchor_cases(&mut run);
+    ts_text_compare_cases(&mut run, &mut rng);
     tz_stream(&mut run, p);
     run.notes.push("statement level: SELECT lists mixing columns, qualified columns, expressions, `input`, `*`, aliases (also clashing ones) with WHERE; names checked against alias|column|p<i>; whole-run output = concatenation of the per-line outputs; three-way with Spec.Select".to_owned());
     run.notes.push("expression level: type-directed generator (≈ 80% well-typed, 20% with ill-typed sub-terms) + operator × type × type table".to_owned());
@@ -949,6 +959,26 @@ pub fn array_unique_cases(run: &mut Run, rng: &mut Rng, n: usize) {
 /// ANCHORS: a small table of calls with the answer written down by hand from the README's signatures and the usual
 /// meaning of the words — for the places where the oracle would otherwise only repeat the library call the code makes
 /// (`pow` / `sqrt` on REAL, `regex_matches`: a search, not a full match; first argument the text, second the pattern)
+/// a TIMESTAMP compared with a TEXT that is a timestamp literal — every operator, BOTH operand orders (`'text' > ts` must not be
+/// read as `ts > 'text'`), texts equal to / before / after the timestamp, and texts that are no literal
+pub fn ts_text_compare_cases(run: &mut Run, rng: &mut Rng) {
+    use CompareOperator::*;
+    let env = gen_env(rng);
+    let texts = ["2000-01-01 00:00:00", "1999-12-31 23:59:59", "2000-01-01 00:00:01", "2024-02-29 13:45:12", "2024-02-29 13:45:13", "1970-01-01 00:00:00",
+                 "9999-12-31 23:59:59", "0001-01-01 00:00:00", "2000-1-1 0:0:0", " 2000-01-01 00:00:00", "2000-01-01", "yesterday", ""];
+    let stamps: Vec<Value> = crate::c03func::sample_timestamps().into_iter().map(Value::Timestamp).collect();
+    for ts in &stamps {
+        for t in &texts {
+            for op in [Equal, NotEqual, GreaterThan, GreaterThanOrEqual, LessThan, LessThanOrEqual] {
+                let a = ExpressionTree::Compare { operator: op.clone(), left: Box::new(ExpressionTree::Value(ts.clone())), right: Box::new(ExpressionTree::Value(Value::String((*t).to_owned()))) };
+                let b = ExpressionTree::Compare { operator: op.clone(), left: Box::new(ExpressionTree::Value(Value::String((*t).to_owned()))), right: Box::new(ExpressionTree::Value(ts.clone())) };
+                check_expr(run, &env, &a, "tscmp:ts-text:");
+                check_expr(run, &env, &b, "tscmp:text-ts:");
+            }
+        }
+    }
+}
+
 pub fn anchor_cases(run: &mut Run) {
     let r = |x: f64| lit(Value::Float(Float(x)));
     let t = |x: &str| lit(Value::String(x.to_owned()));
